@@ -102,6 +102,13 @@ FLASH_MODELS = [
 ]
 
 
+# winding a bank down (Wind.tla): token-less repayment in a deleverage bracket, completion, purges, what-is-left withdrawals, closing
+WIND_MODELS = [
+    {"name": "wind", "module": "MC_Wind.tla", "cfg": {"quick": "MC_WindQuick.cfg", "thorough": "MC_WindThorough.cfg"},
+     "setup": "setups/windmodel.json", "init_from_setup": True, "timeout": {"quick": 900, "thorough": 10000}},
+]
+
+
 RISKCFG_MODELS = [
     {"name": "riskcfg", "module": "MC_RiskCfg.tla", "cfg": {"quick": "MC_RiskCfgQuick.cfg", "thorough": "MC_RiskCfgThorough.cfg"},
      "setup": "setups/riskcfg.json", "init_from_setup": True, "timeout": {"quick": 900, "thorough": 10000}},
@@ -201,7 +208,7 @@ PROPS = {
             "rule": "each instruction list executed as one atomic transaction on the real program is one evaluation; all are non-trivial; distinct by (instruction list, result)",
             "min_nontrivial": 1000},
     "C12": risk_prop2(["configure_bank", "configure_interest", "configure_limits", "configure_emode", "clone_emode", "setup_emissions", "update_emissions",
-                       "tokenless_complete", "write_metadata", "configure_oracle", "set_fixed_price", "tx"], ADMIN_DRIVERS, models=ADMIN_MODELS, minnt=200),
+                       "tokenless_complete", "write_metadata", "configure_oracle", "set_fixed_price", "tx"], ADMIN_DRIVERS, models=ADMIN_MODELS + WIND_MODELS, minnt=200),
     "C19": risk_prop2(["collect_fees", "withdraw_fees", "withdraw_fees_perm", "withdraw_insurance", "settle_emissions", "withdraw_emissions",
                        "withdraw_emissions_perm", "deposit", "withdraw"], ADMIN_DRIVERS + LEDGER_DRIVERS, models=LEDGER_MODELS, minnt=200),
     "C08": {
@@ -218,8 +225,8 @@ PROPS = {
     "C13": risk_prop2(["add_bank", "add_bank_staked", "add_bank_kamino", "add_bank_drift", "add_bank_solend", "init_staked_settings", "edit_staked_settings", "propagate_staked", "configure_bank", "configure_emode", "borrow", "withdraw", "pulse_health", "bankruptcy", "clone_emode"],
                       LIQ_DRIVERS + RISK_DRIVERS + ADMIN_DRIVERS + STAKED_DRIVERS + KAMINO_DRIVERS, models=RISK_MODELS + CONFIG_MODELS + RISKCFG_MODELS),
     "C14": risk_prop2(["deposit", "withdraw", "borrow", "repay", "liquidate", "bankruptcy", "propagate_fee"], LIQ_DRIVERS + RISK_DRIVERS + EDGE_DRIVERS, models=GATE_MODELS),
-    "C01": dict(ledger_prop(), drivers=LEDGER_DRIVERS + EDGE_DRIVERS + LIQ_DRIVERS),
-    "C02": dict(ledger_prop(extra_ops=["purge", "transfer_account", "kamino_deposit", "kamino_withdraw", "drift_deposit", "drift_withdraw", "solend_deposit", "solend_withdraw"]), drivers=LEDGER_DRIVERS + LIQ_DRIVERS + ADMIN_DRIVERS + KAMINO_DRIVERS + EDGE_DRIVERS, models=LEDGER_MODELS + VENUE_MODELS + LIFE_MODELS),
+    "C01": dict(ledger_prop(), drivers=LEDGER_DRIVERS + EDGE_DRIVERS + LIQ_DRIVERS, models=LEDGER_MODELS + WIND_MODELS),
+    "C02": dict(ledger_prop(extra_ops=["purge", "transfer_account", "kamino_deposit", "kamino_withdraw", "drift_deposit", "drift_withdraw", "solend_deposit", "solend_withdraw"]), drivers=LEDGER_DRIVERS + LIQ_DRIVERS + ADMIN_DRIVERS + KAMINO_DRIVERS + EDGE_DRIVERS, models=LEDGER_MODELS + VENUE_MODELS + LIFE_MODELS + WIND_MODELS),
     "C03": dict(ledger_prop(extra_ops=["kamino_deposit", "kamino_withdraw", "drift_deposit", "drift_withdraw", "solend_deposit", "solend_withdraw"]), drivers=LEDGER_DRIVERS + KAMINO_DRIVERS + EDGE_DRIVERS, models=LEDGER_MODELS + VENUE_MODELS),
     "C06": dict(ledger_prop(), drivers=LEDGER_DRIVERS + EDGE_DRIVERS + [{"name": "caps", "args": {"quick": [200], "thorough": [4000]}}]),
     "C16": dict(ledger_prop(extra_ops=["close_account", "transfer_account"]), models=LEDGER_MODELS + PDA_MODELS + LIFE_MODELS, drivers=LEDGER_DRIVERS + [{"name": "struct", "args": {"quick": [60], "thorough": [2000]}}] + LIQ_DRIVERS + STAKED_DRIVERS + ADMIN_DRIVERS + KAMINO_DRIVERS + EDGE_DRIVERS),
